@@ -373,8 +373,10 @@ fn strat(_t: Tier) -> BoxedStrategy<Case> {
         2 => Just(Some("example.com".to_string())),
         1 => Just(Some("[::1]".to_string())),
     ];
-    let comp = || prop_oneof![2 => Just(None), 3 => gen::short_string_nonempty().prop_map(Some), 1 => "[@:/%? #]{1,6}".prop_map(Some)];
+    // strings that look like percent escapes themselves must survive exactly one decoding
+    let comp = || prop_oneof![2 => Just(None), 3 => gen::short_string_nonempty().prop_map(Some), 1 => "[@:/%? #]{1,6}".prop_map(Some), 1 => "[%0-9A-Fa-f]{1,8}".prop_map(Some)];
     let vhost = prop_oneof![
+        1 => "[%0-9A-Fa-f/]{1,8}".prop_map(Some),
         2 => Just(None),
         2 => Just(Some(String::new())),
         4 => gen::short_string_nonempty().prop_map(Some),
@@ -591,11 +593,11 @@ pub fn exec_net(c: &NetCase) -> Outcome {
 }
 
 fn strat_net(_t: Tier) -> BoxedStrategy<NetCase> {
-    let comp = || prop_oneof![2 => Just(None), 3 => gen::short_string_nonempty().prop_map(Some), 1 => "[@:/%? #]{1,6}".prop_map(Some)];
+    let comp = || prop_oneof![2 => Just(None), 3 => gen::short_string_nonempty().prop_map(Some), 1 => "[@:/%? #]{1,6}".prop_map(Some), 1 => "[%0-9A-Fa-f]{1,8}".prop_map(Some)];
     (
         comp(),
         comp(),
-        prop_oneof![1 => Just(None), 1 => Just(Some(String::new())), 3 => gen::short_string_nonempty().prop_map(Some)],
+        prop_oneof![1 => Just(None), 1 => Just(Some(String::new())), 3 => gen::short_string_nonempty().prop_map(Some), 1 => "[%0-9A-Fa-f/]{1,8}".prop_map(Some)],
         // announced heartbeat must not fire inside the case: 0 or >= 30 s
         prop_oneof![1 => Just(None), 1 => Just(Some(0u16)), 2 => (30u16..65535).prop_map(Some)],
         prop_oneof![1 => Just(None), 2 => any::<u16>().prop_map(Some)],
